@@ -15,12 +15,18 @@ SPEC = dict(
     level_note='A-ASCII for lower(). _get_mass/_get_comp lookup order and the resolver chains (mass_calc._parse_mod_mass, chem_calc._parse_mod_comp) '
                'are exercised by the table tier, not under contract.',
     design_ref='DESIGN.md section 6, C10',
-    contracts=['moddb', 'modmass', 'modresolve'],
-    targets={'modmass': ['peptacular.mass_calc:mod_mass@mod', 'peptacular.mass_calc:mod_mass@int', 'peptacular.mass_calc:mod_mass@float', 'peptacular.mass_calc:mod_mass@str']},
+    contracts=['moddb', 'modmass', 'modresolve', 'modcomp'],
+    targets={'modmass': ['peptacular.mass_calc:mod_mass@mod', 'peptacular.mass_calc:mod_mass@int', 'peptacular.mass_calc:mod_mass@float', 'peptacular.mass_calc:mod_mass@str', 'peptacular.mass_calc:_parse_mod_mass@str']},
     bounded=[dict(name='C10-tables', script='bounded/C10.py')],
     replay_finder='bounded/C10.py',
     explanation='string obligations for the spelling rules (all discharged) + exhaustive table enumeration',
-    proved_clauses=['look-up (contracts/modresolve.py): _get_mass / _get_comp return -- and raise -- as a function of the database and the text AFTER the '
+    proved_clauses=['one alternative (_parse_mod_mass / _parse_mod_comp, the two dispatchers): the localisation tag is cut off before anything else (a bare tag '
+                    'weighs nothing / has the empty composition); a signed or unsigned number is its own mass (no composition); Glycan:, GNO, XLMOD, RESID, '
+                    'INFO:, PSI-MOD, Unimod, Formula:, Obs: texts go to exactly their resolver, in that order, WITHOUT the tag; anything else has neither '
+                    '(contracts/modmass.py 342 obligations, contracts/modcomp.py 289)',
+                    'mod_comp: a Mod object multiplies every entry of its value\'s composition by the multiplier; a number raises; a text takes the first '
+                    '\'|\' alternative that has a composition and raises only if none has',
+                    'look-up (contracts/modresolve.py): _get_mass / _get_comp return -- and raise -- as a function of the database and the text AFTER the '
                     'prefix is stripped (accession first, then name; tabulated mass else the computed one; a signed number is a mass shift), never of '
                     'the original spelling; parse_<vocabulary>_mass / _comp (5 vocabularies) are that helper on the stripped text; lemmas: two '
                     'texts with the same stripped body, and the documented prefixes in upper / lower / mixed case, resolve to the same mass and '
